@@ -36,7 +36,33 @@ def main():
     tier = os.environ.get('VERIF_TIER') or sys.argv[2]
     if tier not in ('quick', 'thorough'):
         tier = sys.argv[2]
+    os.environ['PWV_RUN_TAG'] = f'{pid}-{os.getpid()}-{os.urandom(4).hex()}'
+    _arm_deadline(pid, tier)
     return common.run_check(pid, tier, mod.main)
+
+
+def _arm_deadline(pid, tier):
+    """A check never hangs: past its global deadline it dumps every thread's stack to the stderr log and
+    ends with an infrastructure error (exit 2, no VIOLATION line). `kill -USR1 <pid>` dumps the stacks of a
+    running check without stopping it."""
+    import faulthandler
+    import signal
+    import threading
+    import time
+    faulthandler.register(signal.SIGUSR1, all_threads=True, file=sys.stderr)
+    limit = float(os.environ.get('VERIF_DEADLINE') or (1800 if tier == 'quick' else 4 * 3600))
+
+    def guard():
+        time.sleep(limit)
+        try:
+            faulthandler.dump_traceback(file=sys.stderr, all_threads=True)
+        except Exception:
+            pass
+        print(f'INFRA-ERROR {pid}: the check did not finish within its global deadline of {limit:.0f} s (stacks in replays/{pid}/stderr.log)')
+        sys.stdout.flush()
+        _kill_descendants()
+        os._exit(2)
+    threading.Thread(target=guard, daemon=True).start()
 
 
 def _kill_descendants():
@@ -59,6 +85,17 @@ def _kill_descendants():
             if c not in seen:
                 seen.add(c)
                 todo.append(c)
+    # orphans (children of a server that was killed are re-parented to init): found by the tag that every
+    # process started by this check inherits in its environment
+    tag = ('PWV_RUN_TAG=' + os.environ.get('PWV_RUN_TAG', '\0none')).encode()
+    for d in os.listdir('/proc'):
+        if d.isdigit() and int(d) != me:
+            try:
+                with open(f'/proc/{d}/environ', 'rb') as f:
+                    if tag in f.read().split(b'\0'):
+                        seen.add(int(d))
+            except Exception:
+                pass
     for c in seen:
         try:
             os.kill(c, signal.SIGKILL)
